@@ -118,7 +118,8 @@ def run(ctx):
     check_on_copies(ctx)
     check_sweep_termination(ctx)
     check_region_partition(ctx)
-    from ._generic import minimal_scan, grouped_runs
+    from ._generic import minimal_scan, grouped_runs, inclusive_closures
+    ctx.floor('inclusive closures of the region graph', inclusive_closures(ctx, ctx.repo.func(RG, 'RegionGraph.build_graph'), 'region-structure'), 2)
     for q_, f_ in sorted(ctx.repo.module(RG).funcs.items()):
         if q_.startswith('RegionGraph.') and '<locals>' not in q_:
             minimal_scan(ctx, f_, 'region-structure')
